@@ -40,6 +40,8 @@ def specs(tier):
             out.append({'mech': 'mwem', 'eps': eps, 'delta': delta, 'noise': noise, 'bounded': bounded, 'rounds': rounds, 'alpha': alpha})
         if tier == 'quick':
             out.append({'mech': 'mwem', 'eps': eps, 'delta': delta, 'noise': 'gaussian', 'bounded': False, 'rounds': 2, 'alpha': 0.5})
+        # seven attributes: 21 candidate pairs for the spanning-tree selections
+        out.append({'mech': 'adagrid', 'eps': eps, 'delta': delta, 'targets': [], 'split': None, 'threshold': 5.0, 'sizes': [2] * 7})
         # budget fractions that are each <= 1 but do not sum to 1 (the mechanism normalises them)
         out.append({'mech': 'adagrid', 'eps': eps, 'delta': delta, 'targets': [], 'split': [0.5, 0.25, 0.5], 'threshold': 5.0})
         # MWEM with a workload that leaves attribute C unmentioned
